@@ -42,6 +42,13 @@ class SgzCropper(SgzReader):
             print(err_string.format("Zslice", 0, len(self.zslices), *zslices_index_range))
             valid_bounds = False
 
+        for name, range_ in [("Inline", iline_index_range),
+                             ("Crossline", xline_index_range),
+                             ("Zslice", zslices_index_range)]:
+            if not range_[0] < range_[1]:
+                print("{} range ({},{}) is empty.".format(name, *range_))
+                valid_bounds = False
+
         if valid_bounds:
             iline_index_range = self.correct_bounds(iline_index_range, "inline", len(self.ilines), 0)
             xline_index_range = self.correct_bounds(xline_index_range, "crossline", len(self.xlines), 1)
